@@ -972,17 +972,75 @@ func TestVerifC17(t *testing.T) {
 	}
 	v.Count("kind:treeHeight")
 
-	// (c4) information: the slices returned by ChildrenOf alias the instance's position list.
+	// (c4) observation, not an oracle: which returned slices are windows of the instance's position
+	// table? For every slice-returning accessor and every caller-side change (sort in place,
+	// overwrite, append) the instance is asked everything again and compared with a fresh one.
+	// On the current code ChildrenOf / ReplicaChildren / PeersOf are windows (and NewSimple keeps
+	// the caller's slice); no consumer in /repo writes to them (the "tree in use" harness in
+	// protocol/comm checks the real consumer), so this is reported as information only. SubTree
+	// returns a fresh slice; that one is an oracle in the sessions above.
 	{
-		ids := []hotstuff.ID{1, 3, 2, 5, 4}
-		tr := NewSimple(1, 2, ids)
-		ch := tr.ReplicaChildren()
-		before := slices.Clone(tr.ChildrenOf(3))
-		sort.Slice(ch, func(i, j int) bool { return ch[i] < ch[j] })
-		after := tr.ChildrenOf(3)
-		if !slices.Equal(before, after) {
-			v.Note(fmt.Sprintf("info: ReplicaChildren() returns a window of the instance's position slice; a caller that sorts it in place changes the instance (ChildrenOf(3) %v -> %v). No caller in /repo writes to it.", before, after))
+		ids := []hotstuff.ID{1, 3, 2, 7, 6, 5, 4, 9, 8}
+		bf := 2
+		snapshot := func(t *Tree) string {
+			var b strings.Builder
+			for _, y := range ids {
+				fmt.Fprintf(&b, "%v|%v|%d;", t.ChildrenOf(y), t.IsRoot(y), t.heightOf(y))
+			}
+			return b.String()
 		}
+		accessors := []struct {
+			name string
+			x    hotstuff.ID
+			get  func(t *Tree) []hotstuff.ID
+		}{
+			{"ChildrenOf(root)", 3, func(t *Tree) []hotstuff.ID { return t.ChildrenOf(1) }},
+			{"ReplicaChildren", 1, func(t *Tree) []hotstuff.ID { return t.ReplicaChildren() }},
+			{"PeersOf", 7, func(t *Tree) []hotstuff.ID { return t.PeersOf() }},
+			{"SubTree", 3, func(t *Tree) []hotstuff.ID { return t.SubTree() }},
+			{"slice given to NewSimple", 3, nil},
+		}
+		mutations := []struct {
+			name string
+			do   func(l []hotstuff.ID)
+		}{
+			{"sort", func(l []hotstuff.ID) { sort.Slice(l, func(i, j int) bool { return l[i] < l[j] }) }},
+			{"overwrite", func(l []hotstuff.ID) {
+				for i := range l {
+					l[i] = 99
+				}
+			}},
+			{"append", func(l []hotstuff.ID) { _ = append(l, 98, 97) }},
+		}
+		var aliased, isolated []string
+		for _, acc := range accessors {
+			for _, mu := range mutations {
+				func() {
+					defer func() {
+						if rec := recover(); rec != nil {
+							aliased = append(aliased, acc.name+"/"+mu.name+"(panic)")
+						}
+					}()
+					own := slices.Clone(ids)
+					own = own[:len(own):len(own)+0]
+					tr := NewSimple(acc.x, bf, own)
+					want := snapshot(tr)
+					if acc.get == nil {
+						mu.do(own)
+					} else {
+						mu.do(acc.get(tr))
+					}
+					if snapshot(tr) != want {
+						aliased = append(aliased, acc.name+"/"+mu.name)
+						v.Count("observation:caller-write-changes-instance")
+					} else {
+						isolated = append(isolated, acc.name+"/"+mu.name)
+						v.Count("observation:caller-write-isolated")
+					}
+				}()
+			}
+		}
+		v.Note(fmt.Sprintf("observation (not a C17 violation: no consumer in /repo writes to these slices): a caller-side write changes the instance's later answers for %v; it does not for %v (positions %v, bf %d)", aliased, isolated, ids, bf))
 	}
 
 	v.CountN("instances", r.insts)
